@@ -117,7 +117,18 @@ fn time_value() -> impl Strategy<Value = i128> {
     ]
 }
 fn mtg_value() -> impl Strategy<Value = Option<u32>> {
-    prop_oneof![3 => Just(None), 2 => Just(Some(1u32)), 4 => (1u32..=40).prop_map(Some), 1 => Just(Some(10_000u32)), 1 => Just(Some(u32::MAX)), 1 => any::<u32>().prop_map(|v| Some(v.max(1)))]
+    prop_oneof![
+        3 => Just(None),
+        2 => Just(Some(1u32)),
+        4 => (1u32..=40).prop_map(Some),
+        1 => Just(Some(10_000u32)),
+        1 => Just(Some(u32::MAX)),
+        1 => any::<u32>().prop_map(|v| Some(v.max(1))),
+        // integer-width boundaries: k * 2^e + d (a product such as 4 * movestogo or 5 * movestogo / 4
+        // computed in 32 or 16 bits wraps just above these)
+        2 => (14u32..32, 1u64..4, 0u64..6).prop_map(|(e, k, d)| Some(((k << e) + d).min(u32::MAX as u64).max(1) as u32)),
+        1 => (1u64..11, 0u64..4).prop_map(|(div, d)| Some((((1u64 << 32) / div) + d).min(u32::MAX as u64) as u32)),
+    ]
 }
 pub fn clocks_strategy() -> impl Strategy<Value = Clocks> {
     (time_value(), time_value(), time_value(), time_value(), mtg_value(), any::<bool>(), time_value(), time_value()).prop_map(|(wtime, btime, winc, binc, mtg, white, other_time, other_inc)| Clocks { wtime, btime, winc, binc, mtg, white, other_time, other_inc })
